@@ -207,13 +207,15 @@ def counted_loop(body, scc):
             continue
         # the exit test
         test_bb = None
+        test_k = None
+        test_op = None
         for i in sorted(sset):
             t = body.term(i)
             if t["t"] != "switch" or not any(x not in sset for x in body.succ[i]):
                 continue
             dl = op_local(t["discr"])
             for k2, bb2, j2, x2 in body.defs.get(dl, []):
-                if k2 == "stmt" and x2["s"] == "assign" and x2["rv"]["k"] == "binop" and x2["rv"]["op"] in ("Gt", "Ge", "Ne", "Lt", "Le"):
+                if k2 == "stmt" and x2["s"] == "assign" and x2["rv"]["k"] == "binop" and x2["rv"]["op"] in ("Gt", "Ge", "Ne", "Lt", "Le", "Eq"):
                     a, b_ = x2["rv"]["a"], x2["rv"]["b"]
                     la, lb = op_local(a), op_local(b_)
                     # the compared value is the counter or a fresh copy of it
@@ -225,6 +227,9 @@ def counted_loop(body, scc):
                     other = b_ if (la is not None and is_c(la)) else (a if (lb is not None and is_c(lb)) else None)
                     if other is not None and (op_const(other) is not None or interval(body, other) is not None):
                         test_bb = i
+                        iv_ = interval(body, other)
+                        test_k = iv_[1] if iv_ else None
+                        test_op = x2["rv"]["op"]
         if test_bb is None:
             continue
         # every cycle passes a step
@@ -247,5 +252,8 @@ def counted_loop(body, scc):
                 break
         if init is None:
             continue
-        return {"counter": c, "bound": init if direction == "down" else None, "direction": direction, "step_blocks": step_blocks, "test_bb": test_bb}
+        bound = init if direction == "down" else None
+        if direction == "up" and test_k is not None and init <= test_k:
+            bound = test_k - init + (1 if test_op in ("Le", "Ge") else 0)
+        return {"counter": c, "bound": bound, "direction": direction, "step_blocks": step_blocks, "test_bb": test_bb, "limit": test_k}
     return None
